@@ -29,3 +29,10 @@ pub use compression::{
     Compression, CompressionAlgorithm, CompressionError, CompressionLevelOutOfRangeError,
 };
 pub use hashsum::HashSum;
+
+/// Verification hook: the rolling hashes, reachable from the verification harness only.
+#[cfg(oll3_bita_verif)]
+#[doc(hidden)]
+pub mod verif_rolling_hash {
+    pub use crate::rolling_hash::{BuzHash, RollSum, RollingHash};
+}
